@@ -299,6 +299,45 @@ def check_pairs(ctx, pairs):
             ctx.sample({"opts": opts, "old_keys": [e["key"] for e in req["old"]], "new_keys": [e["key"] for e in req["new"]], "changes": impl})
 
 
+def check_views(ctx, pairs):
+    """diffing two filtered views reports exactly what diffing the two indexes restricted to the accepted keys reports -
+    for filters that accept the root key and for filters that do not (`lambda k: "dir" in k` style)"""
+    from dvc_data.index.diff import diff
+    from dvc_data.index.view import view
+
+    rng = ctx.rng
+    for old, new, opts in pairs:
+        if not old or not new:
+            continue
+        tops = sorted({k[0] for k, _, _ in list(old) + list(new) if k})
+        if not tops:
+            continue
+        allowed = {t for t in tops if rng.random() < 0.6} or {tops[0]}
+        accept_root = rng.random() < 0.5
+
+        def flt(k, allowed=allowed, accept_root=accept_root):
+            return (accept_root if not k else k[0] in allowed)
+
+        kw = {k: v for k, v in opts.items() if k != "cmp"}
+        if opts.get("cmp") == "dirExec":
+            kw["meta_cmp_key"] = meta_cmp_key
+        case = {"view_diff": True, "old": [ent_json(x) for x in old], "new": [ent_json(x) for x in new], "opts": opts,
+                "allowed": sorted(allowed), "accept_root": accept_root}
+        ctx.case(case)
+        ctx.count("view_diff accept_root=%s" % accept_root)
+
+        def f():
+            return [[c.typ, list(c.old.key) if c.old else None, list(c.new.key) if c.new else None]
+                    for c in diff(view(build_index(old), flt), view(build_index(new), flt), **kw)]
+
+        kind, v = safe_call(f)
+        got = canon_impl(v) if kind == "ok" else {"err": v}
+        exp = run_diff([x for x in old if flt(x[0])], [x for x in new if flt(x[0])], opts)
+        ctx.oracle(got == exp, case, {"why": "diff of two filtered views differs from the diff of the indexes restricted to the accepted keys",
+                                      "views": got if isinstance(got, dict) else [x for x in got if x not in exp][:4],
+                                      "restricted": exp if isinstance(exp, dict) else [x for x in exp if x not in got][:4]})
+
+
 def rename_workload(rng):
     """duplicate contents moved around: several deletions and additions sharing hashes"""
     from dvc_data.hashfile.hash_info import HashInfo
@@ -361,7 +400,7 @@ def run(ctx):
         "exhaustive _diff_entry table (26 entry shapes per side x 8 option combinations); pairs of well-formed indexes derived from "
         "one another (modify/delete/add, file<->directory kind changes at any depth, implicit or explicit directory entries with "
         "consistent hashes, missing hash/meta, one side None or empty) x random option combinations; rename workloads with duplicate "
-        "hashes. non-trivial = both sides non-empty; distinct = sha256 of the case"
+        "hashes; the same pairs behind filtered views (filter on the first key part, accepting or rejecting the root key) against the diff of the restricted indexes. non-trivial = both sides non-empty; distinct = sha256 of the case"
     )
     ctx.assumptions = ["indexes are well-formed: every proper prefix of an entry key is absent or a directory entry",
                        "directory hashes are consistent with their children (for the unchanged-subtree shortcut)"]
@@ -370,6 +409,7 @@ def run(ctx):
     pairs = [rand_pair(ctx.rng) + (rand_opts(ctx.rng),) for _ in range(n)]
     pairs += [rename_workload(ctx.rng) for _ in range(ctx.n(200, 2500))]
     check_pairs(ctx, pairs)
+    check_views(ctx, pairs[: ctx.n(250, 3000)])
 
 
 def search(ctx):
